@@ -78,4 +78,13 @@ def replay(ctx, case):
 
 
 def run(ctx):
+    # deterministic sweep: every rule template x every coefficient coincidence (root and nested position)
+    texts = G.sweep_texts()
+    for i, t in enumerate(texts):
+        if i % ctx.nshards != ctx.shard:
+            continue
+        ctx.count("evaluations")
+        ctx.count("sweep:cases")
+        check_tree(ctx, {"text": t, "pre": []})
+    ctx.info["template_sweep_size"] = len(texts)
     hyp_run(ctx, "g-tree", G.tree_case(12 if ctx.tier == "quick" else 24), check_tree, ctx.n(3000, 15000))
